@@ -190,6 +190,103 @@ def devinfo_configs():
                 yield {"family": "DT", "serial": serial, "refuse": list(refuse), "tcp": bool(arm & 1), "info": {"arm": arm, "dsp1": arm % 30, "dsp2": (arm * 5) % 30}}
 
 
+def check_concurrent(acc: Acc, cfg):
+    """Two public calls overlap on ONE inverter object (a poll and a re-detection, or two polls): requests are served one at a
+    time in arrival order, as the protocol lock does; the second call starts `offset` scheduling steps after the first.
+    Whatever the interleaving, nothing may be decoded from beyond the answer that was fetched."""
+    import asyncio
+    from goodwe.exceptions import InverterError, RequestFailedException
+    from goodwe.protocol import ProtocolResponse
+    acc.case()
+    log = ReadLog()
+    install_wrappers(log)
+    inv, sim = siminv.build_direct(cfg, default=lambda a: (a * 13 + 5) & 0xFFFF)
+    sim.set(35184, cfg.get("battery_mode", 1)) if cfg["family"] == "ET" else None
+    responder = siminv.responder_for(inv, sim)
+    second, offset = cfg["concurrent"]
+    acc.nontrivial("concurrent", cfg["family"], cfg["serial"], cfg.get("rated_power"), tuple(cfg.get("refuse", ())), cfg.get("tcp"), second, offset)
+
+    async def scenario():
+        lock = asyncio.Lock()
+
+        async def _read_from_socket(command):
+            async with lock:
+                req = command.request_bytes()
+                await asyncio.sleep(0)
+                resp = responder.respond(req)
+                if resp is None:
+                    raise RequestFailedException("no answer", 1)
+                if command.validator(resp):
+                    return ProtocolResponse(resp, command)
+                raise RequestFailedException("refused by the validator", 1)
+
+        inv._read_from_socket = _read_from_socket
+        await inv.read_device_info()
+
+        async def a():
+            try:
+                await inv.read_runtime_data()
+            except InverterError:
+                pass
+
+        async def b():
+            for _ in range(offset):
+                await asyncio.sleep(0)
+            try:
+                await (inv.read_device_info() if second == "info" else inv.read_runtime_data())
+            except InverterError:
+                pass
+
+        await asyncio.gather(a(), b())
+        await a()
+
+    loop = asyncio.new_event_loop()
+    try:
+        loop.run_until_complete(scenario())
+    except Exception as ex:
+        acc.fail("C14|%s|concurrent|exception|%s" % (cfg["family"], type(ex).__name__), repr(ex), cfg)
+        return
+    finally:
+        loop.close()
+    seen = set()
+    for sid, first, count, pos, req, got in log.short:
+        key = "C14|%s|short-read|window-%s+%s|%s" % (cfg["family"], first, count, sid)   # same keys as the sequential cases (known finding: MPPT window)
+        if key in seen:
+            continue
+        seen.add(key)
+        acc.fail(key, "%s decoded from a %s-register answer starting at %s: read at byte %d asked for %d bytes, got %d, while a %s overlapped the poll "
+                      "(started %d steps later)" % (sid, count, first, pos, req, got, "read_device_info()" if second == "info" else "second read_runtime_data()", offset), cfg)
+
+
+def concurrent_configs():
+    serials = [b"9010KETU000W0000", b"925KETT000W00001", b"929K9ETT00W00001", b"95000EHU000W0001"]
+    opt = ("battery2", "meter_ext2", "meter_ext", "mppt")
+    for serial in serials:
+        for power in (10000, 15000, 25000):
+            for r in range(len(opt) + 1):
+                for refuse in itertools.combinations(opt, r):
+                    for second in ("info", "poll"):
+                        for offset in range(0, 14):
+                            yield {"family": "ET", "serial": serial, "rated_power": power, "battery_mode": 1, "refuse": list(refuse),
+                                   "tcp": bool(offset & 1), "concurrent": [second, offset]}
+    for serial in (b"9010KDTU000W0000", b"9010KDSN000W0000"):
+        for refuse in ((), ("meter",)):
+            for second in ("info", "poll"):
+                for offset in range(0, 8):
+                    yield {"family": "DT", "serial": serial, "refuse": list(refuse), "tcp": False, "concurrent": [second, offset]}
+
+
+def concurrent_job(j):
+    part, parts = j
+    acc = Acc()
+    for i, cfg in enumerate(concurrent_configs()):
+        if i % parts == part:
+            check_concurrent(acc, cfg)
+            if len(acc.samples) < 1 and cfg["refuse"] == ["meter_ext2"]:
+                acc.sample(cfg)
+    return acc
+
+
 def devinfo_job(j):
     part, parts = j
     acc = Acc()
@@ -230,9 +327,13 @@ def run(ctx):
     ctx.exhaustive_parts.append("5 ET capability classes x 7 rated-power boundary values x ARM firmware 0..47 x 4 refusal sets; 3 DT classes x ARM 0..47 x 2")
     ctx.shard(transient_job, [(p, 16) for p in range(16)], "same, plus one transient failure (no answer / exception 4) at request k of the polling sequence, 4 polls")
     ctx.exhaustive_parts.append("6 ET capability classes x 3 power classes x 32 refusal subsets x transient failure at request 0..8 x {silent, busy}; DT likewise")
+    ctx.shard(concurrent_job, [(p, 16) for p in range(16)], "a re-detection or a second poll overlaps a poll on the same object (every start offset 0..13, requests served in arrival order)")
     ctx.exhaustive_parts.append("ET: %d serial tags x 3 power classes x battery on/off x 32 refusal subsets x UDP/TCP; DT: %d tags x 8 refusal subsets x UDP/TCP" % (
         len(siminv.et_serials()), len(siminv.dt_serials())))
 
 
 def replay(ctx, case):
+    if case.get("concurrent"):
+        check_concurrent(ctx.acc, case)
+        return
     check_config(ctx.acc, case)
